@@ -57,30 +57,23 @@ impl BracketAtom {
         }
         None
     }
-}
 
-/// Converts the last three items into a range if applicable.
-fn make_range(items: &mut Vec<BracketItem>) {
-    use BracketAtom::*;
-    use BracketItem::*;
-
-    if let Some(i1) = items.pop() {
-        if let Atom(end) = i1 {
-            if let Some(i2) = items.pop() {
-                if let Atom(Char('-')) = i2
-                    && let Some(i3) = items.pop()
-                {
-                    if let Atom(start) = i3 {
-                        items.push(Range(start..=end));
-                        return;
-                    }
-                    items.push(i3);
-                }
-                items.push(i2);
-            }
-            items.push(Atom(end));
+    /// Parses a bracket expression component that starts with `pc`.
+    ///
+    /// If `pc` starts a collating symbol, equivalence class, or character
+    /// class, the rest of it is consumed from `i`. Otherwise, the result is the
+    /// character itself.
+    fn parse<I>(pc: PatternChar, i: &mut I) -> Self
+    where
+        I: Iterator<Item = PatternChar> + Clone,
+    {
+        if pc == PatternChar::Normal('[')
+            && let Some((atom, j)) = Self::parse_inner(i.clone())
+        {
+            *i = j;
+            atom
         } else {
-            items.push(i1);
+            BracketAtom::Char(pc.char_value())
         }
     }
 }
@@ -95,7 +88,6 @@ impl Bracket {
     where
         I: Iterator<Item = PatternChar> + Clone,
     {
-        use BracketAtom::*;
         use BracketItem::*;
 
         let mut bracket = Bracket {
@@ -110,17 +102,27 @@ impl Bracket {
                 {
                     bracket.complement = true
                 }
-                PatternChar::Normal('[') => {
-                    if let Some((atom, j)) = BracketAtom::parse_inner(i.clone()) {
-                        bracket.items.push(atom.into());
-                        i = j;
-                    } else {
-                        bracket.items.push(Atom(Char('[')));
+                // An unquoted hyphen between two atoms is a range operator.
+                // It is an ordinary character if it is the first or last
+                // character or follows a range.
+                PatternChar::Normal('-') if matches!(bracket.items.last(), Some(Atom(_))) => {
+                    let mut j = i.clone();
+                    match j.next() {
+                        None | Some(PatternChar::Normal(']')) => {
+                            bracket.items.push(BracketAtom::Char('-').into())
+                        }
+                        Some(pc) => {
+                            let end = BracketAtom::parse(pc, &mut j);
+                            i = j;
+                            let Some(Atom(start)) = bracket.items.pop() else {
+                                unreachable!("the last item is an atom")
+                            };
+                            bracket.items.push(Range(start..=end));
+                        }
                     }
                 }
-                c => bracket.items.push(Atom(Char(c.char_value()))),
+                pc => bracket.items.push(BracketAtom::parse(pc, &mut i).into()),
             }
-            make_range(&mut bracket.items);
         }
         None
     }
